@@ -196,6 +196,64 @@ func (q *Seq) Exec(op SOp) bool {
 		}
 		q.Settle()
 		q.Compare(r, what+fmt.Sprintf("->req %d", creq), m.Cancel(idx, creq, op.Opts), nil)
+	case "meta":
+		args, refs := q.resolveMetaArgs(r, op.Args)
+		if !s.Send(&wamp.Call{Request: req, Options: wamp.Dict{}, Procedure: wamp.URI(op.URI), Arguments: args, ArgumentsKw: op.Kw}) {
+			c.Violf("step %d (%s): router did not take the message", q.Step, what)
+			return true
+		}
+		q.Settle()
+		want, render, eff := m.Meta(idx, req, op.URI, args, op.Kw, refs, q.MetaKill)
+		if render != nil {
+			q.metaRender[invKey{idx, req}] = render
+		}
+		exp := []Exp{{To: idx, Text: want}}
+		if strings.Contains(want, "|") {
+			exp = []Exp{{To: idx, Alt: strings.Split(want, "|")}}
+		}
+		c.Probe("meta_call")
+		if eff != nil {
+			for _, k := range eff.Kill {
+				reason := eff.Reason
+				if reason == "" {
+					reason = "wamp.close.normal"
+				}
+				exp = append(exp, Exp{To: k, Text: "GOODBYE(" + reason + ")"})
+			}
+			for _, k := range eff.Kill {
+				exp = append(exp, m.Leave(k, true)...)
+				c.Fault("meta_kill")
+			}
+		}
+		if eff != nil && len(eff.Kill) > 1 {
+			// several sessions end at once, in no particular order: whether
+			// one of them still sees the others' departure is not determined
+			q.lenientTo = map[int]bool{}
+			for _, k := range eff.Kill {
+				q.lenientTo[k] = true
+				if ks := q.Slots[k]; ks != nil {
+					q.maskIDs = append(q.maskIDs, fmt.Sprint(ks.ID))
+				}
+			}
+		}
+		q.Compare(r, what+" "+CanonVal(args), exp, nil)
+		q.lenientTo = nil
+		q.maskIDs = nil
+		if eff != nil {
+			for _, k := range eff.Kill {
+				ks := q.Slots[k]
+				for slot, ci := range q.curIdx {
+					if ci == k {
+						q.curIdx[slot] = -1
+					}
+				}
+				if ks != nil {
+					ks.Left = true
+					q.retire(ks)
+					q.Slots[k] = nil
+				}
+			}
+		}
 	case "leave":
 		var exp []Exp
 		switch op.How {
@@ -375,4 +433,72 @@ func (q *Seq) pickCall(r *SeqRealm, idx int, op SOp) wamp.ID {
 		return other[op.K%len(other)].Req
 	}
 	return wamp.ID(666000 + op.K)
+}
+
+// resolveMetaArgs turns "@S:k", "@R:k", "@sess:slot", "@S?", "@R?", "@sess?"
+// placeholders into actual ids, and tells the model what they mean.
+func (q *Seq) resolveMetaArgs(r *SeqRealm, in wamp.List) (wamp.List, map[int]MetaRef) {
+	out := wamp.List{}
+	refs := map[int]MetaRef{}
+	for i, a := range in {
+		str, ok := a.(string)
+		if !ok || !strings.HasPrefix(str, "@") {
+			out = append(out, a)
+			continue
+		}
+		var k int
+		switch {
+		case strings.HasPrefix(str, "@S:"):
+			fmt.Sscanf(str[3:], "%d", &k)
+			var live []*MSub
+			for _, x := range r.M.Subs {
+				if !x.Deleted {
+					live = append(live, x)
+				}
+			}
+			if len(live) == 0 {
+				out = append(out, wamp.ID(888001))
+				refs[i] = MetaRef{Class: "S"}
+				continue
+			}
+			x := live[k%len(live)]
+			out = append(out, r.B.subRev[x.Sym])
+			refs[i] = MetaRef{Class: "S", Sym: x.Sym}
+		case strings.HasPrefix(str, "@R:"):
+			fmt.Sscanf(str[3:], "%d", &k)
+			var live []*MReg
+			for _, x := range r.M.Regs {
+				if !x.Deleted {
+					live = append(live, x)
+				}
+			}
+			if len(live) == 0 {
+				out = append(out, wamp.ID(888002))
+				refs[i] = MetaRef{Class: "R"}
+				continue
+			}
+			x := live[k%len(live)]
+			out = append(out, r.B.regRev[x.Sym])
+			refs[i] = MetaRef{Class: "R", Sym: x.Sym}
+		case strings.HasPrefix(str, "@sess:"):
+			fmt.Sscanf(str[6:], "%d", &k)
+			if sess, idx := q.cur(k); sess != nil {
+				out = append(out, sess.ID)
+				refs[i] = MetaRef{Class: "sess", Sym: idx}
+			} else {
+				out = append(out, wamp.ID(888003))
+				refs[i] = MetaRef{Class: "sess", Sym: -1}
+			}
+		case str == "@S?":
+			out = append(out, wamp.ID(888004))
+			refs[i] = MetaRef{Class: "S"}
+		case str == "@R?":
+			out = append(out, wamp.ID(888005))
+			refs[i] = MetaRef{Class: "R"}
+		default:
+			out = append(out, wamp.ID(888006))
+			refs[i] = MetaRef{Class: "sess", Sym: -1}
+		}
+	}
+	return out, refs
 }
